@@ -9,6 +9,7 @@ import itertools
 import json
 import os
 import random
+import shutil
 import sqlite3
 
 from .. import vals
@@ -35,6 +36,7 @@ RULE += ' ' + 'Directory spellings include a symbolic link to the real directory
 RULE += ' ' + "Directory spellings include '~/name' and '$VAR/name'; unknown files include copies of a live value file under its own name in another directory."
 RULE += ' ' + 'One cache in seven holds a symbolic link to a directory elsewhere: nothing behind it is reported or touched.'
 RULE += ' ' + 'A third of the FanoutCache runs keep a named cache, deque and index made through an earlier handle.'
+RULE += ' ' + 'In one cache in eight a value sub-directory has been moved elsewhere and linked back (damage subsets without added files or empty directories): its items are undamaged.'
 ASSUMPTIONS = ['damage is applied while no operation is in flight', 'truncation of text happens on a code-point boundary and extension appends ASCII, except in the low-rate probe of known finding F14']
 PROBES = ('damage_items', 'fanout_runs', 'rows_removed_by_fix', 'f14_probe', 'dir_spelled_dot', 'dir_spelled_double', 'dir_spelled_trailing', 'dir_spelled_dotdot', 'dir_spelled_relative', 'dir_spelled_symlink', 'dir_spelled_tilde', 'dir_spelled_envvar', 'unknown_named_like_value_file', 'link_to_outside_directory', 'named_sub_objects', 'more_than_100_file_rows', 'journal_mode_not_wal', 'mass_loss', 'unknown_hidden_name')
 TECHNIQUE = 'deterministic simulation with out-of-band damage injection: damage-kind subsets enumerated per sampled cache; report / convergence / undamaged-intact oracle with an independent auditor'
@@ -85,6 +87,9 @@ def gen_case(seed, tier):
            # how the caller spells the directory: check() compares paths it builds from rows with paths it finds by walking
            'dirform': rng.choice(('plain', 'plain', 'plain', 'dot', 'double', 'trailing', 'dotdot', 'relative', 'relative-dot', 'symlink', 'tilde', 'envvar')),
            'outside_link': rng.random() < 0.15, 'named': rng.random() < 0.3}
+    # one of the value sub-directories has been moved to another volume and linked back (what an administrator does when a disk
+    # fills up): every file is where its row says, so nothing is damaged
+    cfg['relocated'] = rng.random() if rng.random() < 0.12 else None
     return {'seed': seed, 'cfg': cfg, 'items': items, 'damage': []}
 
 
@@ -172,6 +177,16 @@ def run_case(case):
             k, v = vals.dec(it['k']), vals.dec(it['v'])
             top.set(k, v, expire=it.get('expire'), tag=it.get('tag'))
             expected[fp(k)] = (k, fp(v))
+        if cfg.get('relocated') is not None and not any(d['kind'] in ('unknown', 'emptydir') for d in case['damage']):
+            root = caches[0].directory
+            subs = [d for d in sorted(os.listdir(root)) if len(d) == 2 and os.path.isdir(os.path.join(root, d))
+                    and not os.path.islink(os.path.join(root, d))]
+            if subs:
+                d = subs[int(cfg['relocated'] * len(subs)) % len(subs)]
+                elsewhere = world.path('other-volume-' + d)
+                shutil.move(os.path.join(root, d), elsewhere)
+                os.symlink(elsewhere, os.path.join(root, d))
+                probes['value_directory_relocated_and_linked'] = 1
         # file-backed rows per cache
         damaged_keys = set()
         bumps = {}
